@@ -149,7 +149,13 @@ def self_member_lit(prog, l):
     r = closure_returns(prog, clo[0][1]) or []
     if len(r) != 1 or r[0][1][0] != "bin" or r[0][1][1] != want:
         return None
-    if not any(x[0] == "field" and x[2] == "RaftCore.id" for x in walk(r[0][1])):
+    caps = dict(clo[0][2])
+    def is_own_id(x):
+        if x[0] == "field" and x[2] == "RaftCore.id":
+            return True
+        # a captured variable bound to self.id (`let id = self.id; .. any(|m| *m == id)`, a helper taking the id)
+        return x[0] == "upvar" and any(y[0] == "field" and y[2] == "RaftCore.id" for y in walk(caps.get(x[1], ("?",))))
+    if not any(is_own_id(x) for x in walk(r[0][1])):
         return None
     return l[1][2][0]
 
@@ -325,4 +331,13 @@ def callable_returns(prog, x):
             return [(t[0], t[1]) for t in PG(prog, prog.facts.fns[ks[0]]).returns()]
         except OverflowError:
             return None
+    return None
+
+
+def unwrapped(e):
+    """o of `o.unwrap()`, `o.expect(..)`, `match o { Some(x) => x, None => panic }` (the Some payload), else None"""
+    if e[0] == "call" and e[1].rsplit("::", 1)[-1] in ("unwrap", "expect", "unwrap_unchecked") and e[2]:
+        return e[2][0]
+    if e[0] == "vfield" and e[2].endswith("Option::Some") and e[3] == 0:
+        return e[1]
     return None
